@@ -360,7 +360,7 @@ def check_pipeline(case):
     if N * C < I:
         return None
     try:
-        r, planned, err = c14_runfile.run_pipeline(I, N, C, T)
+        r, planned, err = c14_runfile.run_pipeline(I, N, C, T, first=case.get('first'))
     except Exception as e:  # noqa: BLE001
         return f'pipeline raised {type(e).__name__}: {str(e)[:120]}'
     if err:
@@ -395,9 +395,15 @@ def oracle_cases(ctx, deep):
                             (q + r) * int(rng.integers(1, 40)) + int(rng.integers(0, q + r))]))
         cases.append({'I': I, 'N': N, 'C': C, 'T': T})
     # the end of the pipeline: tasks really executed, merged, read by Analysis
-    for (I, N, C, T) in ([(1, 1, 4, 10), (3, 2, 2, 7), (2, 2, 2, 5)] +
-                         ([(4, 2, 2, 9), (1, 2, 2, 3), (5, 3, 2, 8), (2, 1, 3, 11)] if deep else [])):
+    # (2,2,4,5), (1,1,4,4): the lower edge of the quantifier, tasks whose share is exactly ONE trial
+    for (I, N, C, T) in ([(1, 1, 4, 10), (3, 2, 2, 7), (2, 2, 2, 5), (2, 2, 4, 5), (1, 1, 4, 4)] +
+                         ([(4, 2, 2, 9), (1, 2, 2, 3), (5, 3, 2, 8), (2, 1, 3, 11), (3, 2, 3, 3)] if deep else [])):
         cases.append({'kind': 'pipeline', 'I': I, 'N': N, 'C': C, 'T': T})
+    # the same directory run twice without --delete-existing: partial results of a smaller first request exist when
+    # the requested number is run; the result files must then hold the requested number, not more, not fewer
+    for (I, N, C, first, T) in ([(2, 2, 2, 4, 12), (1, 1, 3, 3, 7)] +
+                                ([(3, 2, 2, 4, 9), (2, 1, 4, 8, 8), (2, 2, 2, 6, 7)] if deep else [])):
+        cases.append({'kind': 'pipeline', 'I': I, 'N': N, 'C': C, 'T': T, 'first': first})
     if deep:
         # every node in its own interpreter with its own string-hash seed (as on a cluster)
         for (I, N, C, T) in [(2, 2, 1, 5), (3, 2, 2, 7), (4, 3, 2, 12), (6, 4, 3, 100), (5, 2, 4, 9)]:
